@@ -65,6 +65,8 @@ def gen_node(rng, bs, mix, depth, ctr, kinds, top=False, extra_ok=True, named=Fa
         elif r < 0.29 and "njt" in kinds and len(bs) == 1 and bs[0] > 0:
             ents.append([k, ["njt", rng.choice(["int64", "float32", "int16", "uint8"]), [rng.randrange(0, 4) for _ in range(bs[0])],
                              rng.choice([[], [], [2]]), ctr[0]]])
+        elif r < 0.35 and r >= 0.32 and "tc" in kinds:
+            ents.append([k, ["tc", gen_dtype(rng, [m for m in mix if m != 16] or [4]), ctr[0]]])
         elif r < 0.32 and "lazy" in kinds and depth > 0:
             nm = rng.choice([1, 2, 3])
             sd = rng.randrange(0, len(bs) + 1)
@@ -97,7 +99,7 @@ MIXES = [[1], [2], [4], [8], [16], [1, 16], [1, 8, 16], [2, 16], [4, 16], [1, 2]
 BATCHES = [[], [], [1], [2], [2], [3], [3], [2, 2], [3, 1], [0], [2, 0], [4]]
 
 
-def gen_tree(rng, kinds=("nt", "njt", "lazy")):
+def gen_tree(rng, kinds=("nt", "njt", "lazy", "tc")):
     bs = rng.choice(BATCHES)
     mix = rng.choice(MIXES)
     named = bool(bs) and rng.random() < 0.3
@@ -202,7 +204,7 @@ def gen_consolidate(rng):
 WRITES = ("set_", "copy_", "update_")
 
 
-def gen_case(rng, kinds=("nt", "njt", "lazy")):
+def gen_case(rng, kinds=("nt", "njt", "lazy", "tc")):
     """tree + history.  Profiles: plain (never consolidated), fresh (consolidated last), inplace (only in-place writes after
     consolidation: they go through the storage), mutate (anything after consolidation)"""
     tree, mix = gen_tree(rng, kinds)
@@ -251,7 +253,7 @@ def misaligned16(td):
 
 def unviewable(td):
     """a leaf that cannot be viewed as flat bytes without a copy (torch's own rule, evaluated on the input)"""
-    from tensordict.base import TensorDictBase
+    from tensordict.base import is_tensor_collection
     from tensordict.utils import is_non_tensor
 
     def go(x):
@@ -260,7 +262,7 @@ def unviewable(td):
         for v in x.values():
             if is_non_tensor(v):
                 continue
-            if isinstance(v, TensorDictBase):
+            if is_tensor_collection(v):
                 if go(v):
                     return True
             elif isinstance(v, torch.Tensor) and not v.is_nested:
@@ -292,6 +294,8 @@ def meta_misaligned16(td):
 def has_kind(o, kind):
     if isinstance(o, list):
         return o[0] == kind
+    if kind == "tc" and o.get("type") not in ("TensorDict", "LazyStackedTensorDict"):
+        return True
     if "members" in o:
         return kind == "lazy" or any(has_kind(m, kind) for m in o["members"])
     return any(has_kind(v, kind) for v in o["ents"].values())
@@ -337,6 +341,9 @@ def applicable(fmt, opt, td, o):
     """formats outside their documented domain are skipped (never counted as failures)"""
     lazy = has_kind(o, "lazy")
     njt = has_kind(o, "njt")
+    if has_kind(o, "tc") and fmt in ("dict", "namedtuple", "struct", "state_dict"):
+        # a tensorclass entry becomes a plain dict / its own state-dict layout there: the class is not carried
+        return False
     if fmt in ("dict", "namedtuple"):
         # a dict has no place for the members of a lazy stack / the raggedness of a nested tensor
         if lazy or njt:
@@ -483,9 +490,22 @@ def struct_misaligned(o):
     return any(tot % s for s in sizes)
 
 
+RESERVED = ("leaves", "cls", "non_tensors", "cls_metadata", "size")
+
+
+def has_reserved_sub(o):
+    """a nested tensordict whose key is a field name of the metadata dict (D115)"""
+    if isinstance(o, list) or "ents" not in o:
+        return False
+    return any((isinstance(v, dict) and k in RESERVED) or has_reserved_sub(v) for k, v in o["ents"].items())
+
+
 def explain(base_fmt, outcome, after, d, ctx, before):
     """the decidable input pattern of a known finding that accounts for this failure, or 'unexplained'"""
     ci = ctx.get("cons") or {}
+    if base_fmt in ("pickle", "deepcopy") and ctx["consolidated"] and has_reserved_sub(before) \
+            and (outcome == "raise" or d[1] in ("keys", "kind")):
+        return "nested-key-is-a-metadata-field"
     if outcome == "raise":
         if base_fmt in ("consolidate", "consolidate_file") and not ctx["already_consolidated"]:
             if ci.get("misaligned16") and "must be divisible by 16" in after:
@@ -533,6 +553,9 @@ def judge(R, case, fmt, opt, before, outcome, after, ctx):
         d = first_diff(before, after)
         R.oracle_fail(fmt, full, {"field": d[1], "at": d[0], "before": d[2], "after": d[3]}, dict(sig, pattern="source-changed", field=d[1]))
         return
+    if outcome == "raise" and base_fmt in ("consolidate", "consolidate_file") and (ctx.get("cons") or {}).get("file") \
+            and has_kind(before, "tc") and "Failed to convert the metatdata to json" in after:
+        return   # declared limitation: the json metadata of a file cannot name a custom tensorclass
     if outcome == "raise":
         pattern = explain(base_fmt, outcome, after, None, ctx, before)
         if base_fmt == "consolidate_file" and pattern in ("elsize16-misaligned", "noncontiguous-leaf-threaded"):
@@ -1338,6 +1361,21 @@ def main(R):
     if not R.step_driver():
         return
     q = R.quick
+    # 0. the corpus of minimised cases (known defects, cases that caught a seeded mutation) always runs first
+
+    def sec_corpus(R):
+        import glob
+        recs = []
+        for fn in sorted(glob.glob(os.path.join(os.path.dirname(os.path.dirname(os.path.abspath(__file__))), "corpus", "C11", "*.json"))):
+            c = json.load(open(fn))
+            case = {"tree": c["tree"], "ops": c["ops"], "profile": "corpus"}
+            trace(dict(case, format=c["format"], opt=c.get("opt", {})))
+            try:
+                recs.append(exec_case(case, [(c["format"], c.get("opt", {}))]))
+            except Exception as e:  # noqa: BLE001
+                recs.append({"case": case, "results": [], "model": None, "crash": type(e).__name__ + ": " + str(e)[:200]})
+        consume(R, recs)
+    supervised(R, "corpus", sec_corpus, 900 if q else 3000)
     # 1. arithmetic core: exhaustive small grid (+ struct-array and reserved-key grids)
 
     def sec_grid(R):
